@@ -182,6 +182,11 @@ def sweep_cases(rnd, idx0):
         start = D(sy, rnd.randrange(3, 5), rnd.randrange(1, 28))
         rot = [("SM", None, start), ("SM", start + datetime.timedelta(days=rnd.randrange(10, 40)), D(sy, 9, rnd.randrange(5, 28))),
                ("SOY", D(sy + 1, 4, rnd.randrange(10, 28)), D(sy + 1, 9, rnd.randrange(5, 28)))]
+        if kw.pop("late_crop", False):
+            # a crop drilled 20-30 November with the latest harvest date 10 December: it cannot emerge, the automatic harvest has to
+            # take it off on its latest date and the rotation goes on
+            rot.insert(2, ("WG", D(sy, 11, 25), D(sy, 12, 10)))
+            kw["automan_rows"] = [("WG", "1120", "1130", "1210")]
         end = D(sy + 1, 11 if kw.get("auto") else rnd.randrange(10, 12), rnd.randrange(1, 28))
         ann = D(sy + 1, 6, rnd.randrange(1, 28))
         datefmt = kw.pop("datefmt", "DateDElong")
@@ -226,6 +231,9 @@ def sweep_cases(rnd, idx0):
     # the automan.txt of the base project spells its dates month-day: these lines run with Dateformat DateENlong
     add("AutoSowingHarvest=1 AutoHarvest=1 ManagementEvents=1 DateENlong", auto={"AutoSowingHarvest": 1, "AutoHarvest": 1}, mgmt=True, datefmt="DateENlong")
     add("AutoHarvest=1 ManagementEvents=1 DateENlong", auto={"AutoHarvest": 1}, mgmt=True, datefmt="DateENlong")
+    add("AutoSowingHarvest=1 AutoHarvest=1 ManagementEvents=1 DateENlong late-sown crop", auto={"AutoSowingHarvest": 1, "AutoHarvest": 1}, mgmt=True,
+        datefmt="DateENlong", late_crop=True)
+    add("AutoHarvest=1 ManagementEvents=1 DateENlong late-sown crop", auto={"AutoHarvest": 1}, mgmt=True, datefmt="DateENlong", late_crop=True)
     add("AutoSowingHarvest=1 ManagementEvents=1 DateENlong", auto={"AutoSowingHarvest": 1}, mgmt=True, datefmt="DateENlong")
     return out
 
@@ -309,7 +317,7 @@ def _run(ctx):
         if c.get("ext"):
             cfg["ResultFileExt"] = c["ext"]
         cfg.update(c.get("auto") or {})
-        opts = dict(rot_mode=c.get("rotmode", "contiguous"), crop_csv=c.get("cropcsv", False), pfout=c.get("pfout"), management=c.get("mgmt", False))
+        opts = dict(automan_rows=c.get("automan_rows"), rot_mode=c.get("rotmode", "contiguous"), crop_csv=c.get("cropcsv", False), pfout=c.get("pfout"), management=c.get("mgmt", False))
         # a used result folder: one or two earlier runs into the SAME folder (same file names), longer / more records or
         # the same; the files must afterwards hold the records of the last run only
         for j, kind in enumerate(c.get("earlier", ())):
@@ -649,7 +657,10 @@ def oracle(ctx, search):
             if gots != sows:
                 fails.append(Fail(key="crop-date-column:%d" % cs["idx"], what="crop file sowing dates %s, rotation says %s"
                                   % ([f[sd[0]].strip() for f, ln in o["C"]][:6], [str(x) for x in sows][:6]), case=desc))
-        if gotc != wantc:
+        if _autoharv(cs) and [a for a, b in gotc] != [crp for crp, s_, h in filerot[1:]]:
+            fails.append(Fail(key="crop-records-automatic-harvest:%d" % cs["idx"], what="crop file: records %s, the rotation file has the crops %s, all with "
+                              "their latest harvest date inside the simulated period" % ([(a, str(b)) for a, b in gotc][:8], [crp for crp, s_, h in filerot[1:]]), case=desc))
+        elif gotc != wantc:
             fails.append(Fail(key="crop-records:%d" % cs["idx"], what="crop file: records %s, expected %s"
                               % ([(a, str(b)) for a, b in gotc][:8], [(a, str(b)) for a, b in wantc][:8]), case=desc))
         # ---- optional pre-harvest file (pfout_conf.yml present and a time series written): one record on the day before every harvest
